@@ -180,7 +180,7 @@ fn main() {
     let rounds = envn("MAYV_ROUNDS", 3) as usize;
     run(cfg, move |ctx| {
         may::config().set_pool_capacity(1);
-        let fates = ["fin", "tmo", "panic", "cpark", "race", "cshort", "waitio", "cwaitio", "iotmo", "cio", "cdrop"];
+        let fates = ["fin", "tmo", "panic", "cpark", "race", "cshort", "waitio", "cwaitio", "iotmo", "cio", "cdrop", "urace"];
         let firsts = ["park", "sleep", "recv", "recvt", "sem", "io"];
         // the main thread's fallback values
         touch_locals(MAIN, "main thread");
@@ -250,6 +250,15 @@ fn main() {
                             // whichever of the timer and the cancel was first: go on blocking
                             may::coroutine::sleep(Duration::from_micros(100));
                             may::coroutine::yield_now();
+                        }
+                        "urace" => {
+                            // unparked exactly when its timer fires, then ends WITHOUT another blocking call: whatever
+                            // the timer left behind must have been consumed by this park
+                            let b = may::sync::Blocker::current();
+                            *r.blocker.lock().unwrap() = Some(b.clone());
+                            r.t_park.store(c.now(), SeqCst);
+                            r.stage.store(1, SeqCst);
+                            let _ = b.park(Some(Duration::from_millis(1)));
                         }
                         "cshort" => {
                             r.stage.store(1, SeqCst);
@@ -325,6 +334,23 @@ fn main() {
                     }
                     unsafe { ha.coroutine().cancel() };
                     Exp::Any
+                }
+                "urace" => {
+                    while r.stage.load(SeqCst) != 1 {
+                        ctx.yield_now();
+                    }
+                    let due = r.t_park.load(SeqCst) + 1_000_000;
+                    let now = ctx.now();
+                    if due > now {
+                        ctx.sleep_ns(due - now);
+                    }
+                    for _ in 0..(sub >> 8) % 12 {
+                        ctx.point();
+                    }
+                    if let Some(b) = r.blocker.lock().unwrap().take() {
+                        b.unpark();
+                    }
+                    Exp::Ok
                 }
                 "cshort" | "waitio" => {
                     while r.stage.load(SeqCst) != 1 {
